@@ -15,6 +15,8 @@ EDGE_VARIANTS = [
     {"db": "memdb", "cache": 10000, "fast": False},
 ]
 SIM_VARIANTS = [{"db": "memdb", "init": True}, {"db": "goleveldb", "init": True}]
+# the shape replays: no node cache, a small one, and whatever the behaviour starts with (Reopen changes it on the way)
+SHAPE_VARIANTS = [{"db": "memdb", "cache": 0, "fast": False}, {"db": "goleveldb", "cache": 8, "fast": True}, {"db": "memdb", "init": True}]
 
 
 def run(ctx):
@@ -52,15 +54,19 @@ def run(ctx):
     vt.parallel([
         lambda: R.drive(ecfg, edges, EDGE_VARIANTS, checklast=1),
         lambda: R.drive(rcfg, redges, EDGE_VARIANTS[:1], checklast=1),
-        lambda: R.drive("VersionedTree_sims.cfg", sims_s, SIM_VARIANTS),
+        lambda: R.drive("VersionedTree_sims.cfg", sims_s, SIM_VARIANTS, freshhandle=True),
         # large trees: GetByIndex / GetWithIndex on every 3rd..7th key and index, and on every key within 40 of the span
         # the last write worked on (working tree every step; every retained version and open snapshot on version steps)
-        lambda: R.drive("VersionedTree_simm.cfg", sims_m, SIM_VARIANTS, denseidx=True),
-        lambda: R.drive("VersionedTree_sim.cfg", sims_l, SIM_VARIANTS, denseidx=True),
-        lambda: R.drive("VersionedTree_simx.cfg", sims_x, SIM_VARIANTS, denseidx=True),
-        lambda: R.drive("VersionedTree_simy.cfg", sims_y, SIM_VARIANTS, denseidx=True),
+        lambda: R.drive("VersionedTree_simm.cfg", sims_m, SIM_VARIANTS, denseidx=True, freshhandle=True),
+        lambda: R.drive("VersionedTree_sim.cfg", sims_l, SIM_VARIANTS, denseidx=True, freshhandle=True),
+        lambda: R.drive("VersionedTree_simx.cfg", sims_x, SIM_VARIANTS, denseidx=True, freshhandle=True),
+        # freshhandle: after every SaveVersion a brand-new handle on the same DB must report the hash SaveVersion returned and
+        # the contents of the version (nothing may live only in the node cache of the writing handle)
+        lambda: R.drive("VersionedTree_simy.cfg", sims_y, SHAPE_VARIANTS, denseidx=True, freshhandle=True, shapestats=True, svsample=3),
     ])
     R.finish()
+    ctx.cov["inner_merges_into_untouched_left"] = int(R.sum.get("inner_merges_into_untouched_left", 0))
+    ctx.cov["replays_saved_idempotently"] = int(R.sum.get("replays_saved_idempotently", 0))
     ctx.cov["exhaustive"] = True
     ctx.cov["variants"] = ["memdb / goleveldb", "cache 0 / 1 / 4 / 10000", "fast index on / off / toggled at Reopen"]
     ctx.log("replayed %d behaviours, %d steps, %d states compared" % (R.sum.get("replays", 0), R.sum.get("steps", 0), R.sum.get("states_compared", 0)))
